@@ -72,17 +72,45 @@ func emitRef(h *rt.H, n *gen.Node, v structform.ExtVisitor, known, byRef bool) e
 
 // numEq: got is a Go number (any integer kind, or float for float nodes) equal to the node.
 func numEq(got interface{}, n *gen.Node) bool {
+	// integers: any integer type (the width is representation), numerically equal
+	var sv int64
+	var uv uint64
+	signed, unsigned := false, false
 	switch x := got.(type) {
+	case int8:
+		sv, signed = int64(x), true
+	case int16:
+		sv, signed = int64(x), true
+	case int32:
+		sv, signed = int64(x), true
 	case int64:
-		return n.K == gen.KInt && uint64(x) == n.Bits || n.K == gen.KUint && x >= 0 && uint64(x) == n.Bits
+		sv, signed = x, true
 	case int:
-		return n.K == gen.KInt && uint64(x) == n.Bits
+		sv, signed = int64(x), true
+	case uint8:
+		uv, unsigned = uint64(x), true
+	case uint16:
+		uv, unsigned = uint64(x), true
+	case uint32:
+		uv, unsigned = uint64(x), true
 	case uint64:
-		return n.K == gen.KUint && x == n.Bits || n.K == gen.KInt && int64(n.Bits) >= 0 && x == n.Bits
+		uv, unsigned = x, true
+	case uint:
+		uv, unsigned = uint64(x), true
 	case float64:
 		return n.K == gen.KF64 && math.Float64bits(x) == n.Bits
 	case float32:
 		return n.K == gen.KF32 && uint64(math.Float32bits(x)) == n.Bits
+	}
+	switch {
+	case signed && n.K == gen.KInt:
+		return uint64(sv) == n.Bits
+	case signed && n.K == gen.KUint:
+		return sv >= 0 && uint64(sv) == n.Bits
+	case unsigned && n.K == gen.KUint:
+		return uv == n.Bits
+	case unsigned && n.K == gen.KInt:
+		return int64(n.Bits) >= 0 && uv == n.Bits
 	}
 	return false
 }
